@@ -13,4 +13,5 @@ class ConcatenateControlConstructionTokenTranslator(AbstractTranslator):
         expressions = [
             ExpressionTokenTranslator.translate(expression, excel, context) for expression in token.expressions]
 
-        return '+'.join([f'self._excel_value_to_string({expression})' for expression in expressions])
+        # one operand for whatever operator stands next to the call
+        return '(' + '+'.join([f'self._excel_value_to_string({expression})' for expression in expressions]) + ')'
